@@ -63,7 +63,12 @@ def check_pure(case, res, vs):
         cmp_dump(d0, d1, "print x3")
     if run2.get("r") in ("ok", "rerr"):
         cmp_dump(d1, d2, "assign x2")
-    if run.get("r") == "ok" and not chained_inplace:
+    def same_vars(a, b):
+        va, vb = a.get("vars", {}), b.get("vars", {})
+        return all(va[k] == vb.get(k) for k in va if k not in ("KQ", "XQ"))
+    # an in-place method changes its receiver between the evaluations; when no variable changed at all (the receiver is
+    # a constant or a temporary, or the method changed nothing) the three evaluations ran in the same state
+    if run.get("r") == "ok" and (not chained_inplace or same_vars(d0, d1)):
         n = len(out)
         if n % 3 != 0 or out[:n // 3] * 3 != out:
             vs.append(Violation("reevaluation-differs:%s" % cls, "three evaluations of %s by the same node printed %r" % (e, out[:300]), case))
@@ -270,12 +275,244 @@ def collect_alias(case, res):
     return [(key, m["hist"] + [m["op"]])]
 
 
+# ------------------------------------------------------------------------------------------------
+# (c) operand kinds: every typed signature with every argument supplied as constant, variable, temporary, table
+#     element, tuple item or function result of the SAME value; the result must equal the all-constant form
+#     evaluated in the same context, no variable may change (except the root of an in-place receiver), and
+#     re-evaluation in an unchanged state must repeat the result.
+KVALS = {
+    "S": ['"a,b,c"', '","', '"-"'],
+    "I": ["2", "1", "3"],
+    "D": ["2.5", "0.5", "4.0"],
+    "B": ["true", "false", "true"],
+    "X": ['raw("a,b")', 'raw(",")', 'raw("-")'],
+}
+KTMP = {"S": '(%s + "")', "I": "(%s + 0)", "D": "(%s * 1.0)", "B": "(%s and true)", "X": "subraw(%s, 0)"}
+KTYPE = {"S": "string", "I": "integer", "D": "decimal", "B": "boolean", "X": "bytes"}
+KINDS = ("const", "var", "tmp", "elem", "item", "fret", "param")
+
+
+def kprelude():
+    out = []
+    for t, vals in KVALS.items():
+        for i, v in enumerate(vals):
+            out.append("k%s%d = %s;" % (t.lower(), i, v))
+        out.append("kt%s = tab(0, %s);" % (t.lower(), vals[0]))
+        for i, v in enumerate(vals):
+            out.append("kt%s.concat(%s);" % (t.lower(), v))
+        out.append("kr%s = tup(%s);" % (t.lower(), ", ".join(vals)))
+        for i, v in enumerate(vals):
+            out.append("function f%s%d() return %s is begin return %s; end;" % (t.lower(), i, KTYPE[t], v))
+    return " ".join(out)
+
+
+def karg(t, slot, kind):
+    v = KVALS[t][slot]
+    tl = t.lower()
+    if kind == "const":
+        return v
+    if kind == "var":
+        return "k%s%d" % (tl, slot)
+    if kind == "tmp":
+        return KTMP[t] % ("k%s%d" % (tl, slot))
+    if kind == "elem":
+        return "kt%s.at(%d)" % (tl, slot)
+    if kind == "item":
+        return "kr%s@%d" % (tl, slot + 1)
+    if kind == "fret":
+        return "f%s%d()" % (tl, slot)
+    raise ValueError(kind)
+
+
+# (format, argument types, in-place receiver?)
+KSIGS = [
+    ("replace(%s, %s, %s)", "SSS"), ("substr(%s, %s, %s)", "SII"), ("substr(%s, %s)", "SI"), ("strpos(%s, %s)", "SS"),
+    ("strpos(%s, %s, %s)", "SSI"), ("lsubstr(%s, %s)", "SI"), ("rsubstr(%s, %s)", "SI"), ("tokenize(%s, %s)", "SS"),
+    ("tokenize(%s, %s, %s)", "SSB"), ("upper(%s)", "S"), ("lower(%s)", "S"), ("trim(%s)", "S"), ("ltrim(%s)", "S"), ("rtrim(%s)", "S"),
+    ("strlen(%s)", "S"), ("str(%s)", "S"), ("str(%s)", "I"), ("str(%s)", "D"), ("str(%s)", "B"), ("str(%s)", "X"), ("num(%s)", "I"), ("int(%s)", "D"),
+    ("hash(%s)", "S"), ("hash(%s, %s)", "SI"), ("b64enc(%s)", "X"), ("raw(%s)", "S"), ("raw(%s, %s)", "II"), ("hex(%s)", "I"), ("hex(%s, %s)", "II"),
+    ("chr(%s)", "I"), ("subraw(%s, %s, %s)", "XII"), ("subraw(%s, %s)", "XI"), ("clamp(%s, %s, %s)", "III"), ("clamp(%s, %s, %s)", "DDD"),
+    ("max(%s, %s)", "II"), ("min(%s, %s)", "DD"), ("max(%s, %s)", "ID"), ("pow(%s, %s)", "DD"), ("pow(%s, %s)", "II"), ("mod(%s, %s)", "II"),
+    ("atan2(%s, %s)", "DD"), ("round(%s, %s)", "DI"), ("round(%s)", "D"), ("abs(%s)", "I"), ("abs(%s)", "D"), ("sign(%s)", "D"), ("floor(%s)", "D"),
+    ("ceil(%s)", "D"), ("sqrt(%s)", "D"), ("exp(%s)", "D"), ("bool(%s)", "B"), ("bool(%s)", "I"), ("isnull(%s)", "S"), ("typeof(%s)", "S"),
+    ("tab(%s, %s)", "IS"), ("tab(%s, %s)", "II"), ("tab(%s, %s)", "IX"), ("tup(%s, %s)", "SI"), ("tup(%s, %s, %s)", "XDB"),
+    ("tab(2, %s).concat(%s)", "SS"), ("tup(%s, 1).set@1(%s)", "SS"), ("tab(2, %s).put(0, %s)", "II"),
+    ("%s + %s", "SS"), ("%s + %s", "II"), ("%s - %s", "II"), ("%s * %s", "II"), ("%s / %s", "II"), ("%s %% %s", "II"), ("%s ** %s", "II"),
+    ("%s + %s", "DD"), ("%s - %s", "DD"), ("%s * %s", "DD"), ("%s / %s", "DD"), ("%s + %s", "ID"), ("%s * %s", "DI"), ("%s ** %s", "DD"),
+    ("%s & %s", "II"), ("%s | %s", "II"), ("%s ^ %s", "II"), ("%s << %s", "II"), ("%s >> %s", "II"), ("- %s", "I"), ("- %s", "D"), ("~ %s", "I"),
+    ("not %s", "B"), ("%s and %s", "BB"), ("%s or %s", "BB"), ("%s xor %s", "BB"),
+    ("%s == %s", "SS"), ("%s != %s", "SS"), ("%s < %s", "SS"), ("%s >= %s", "SS"), ("%s == %s", "II"), ("%s < %s", "II"), ("%s <= %s", "DD"),
+    ("%s > %s", "ID"), ("%s == %s", "XX"), ("%s != %s", "BB"), ("%s matches %s", "SS"),
+    ("%s + %s + %s", "SSS"), ("%s + %s * %s", "III"), ("(%s + %s) * %s", "DDD"), ("%s - (%s - %s)", "III"),
+    ("%s.at(%s)", "SI"), ("%s.at(%s)", "XI"), ("%s.count()", "S"), ("%s.count()", "X"),
+    ("%s.concat(%s)", "SS"), ("%s.concat(%s)", "SI"), ("%s.concat(%s)", "XX"), ("%s.concat(%s)", "XI"), ("%s.put(%s, %s)", "SII"),
+    ("%s.insert(%s, %s)", "SIS"), ("%s.insert(%s, %s)", "XIX"), ("%s.delete(%s)", "SI"), ("%s.delete(%s)", "XI"),
+]
+KINPLACE = re.compile(r"^%s\.(concat|put|insert|delete)\(")
+
+
+def kinds_gen(tier):
+    kinds = ("const", "var", "tmp", "elem", "item", "fret")
+    pre = kprelude()
+
+    def gen():
+        n = 0
+        for fmt, types in KSIGS:
+            arity = len(types)
+            inplace = bool(KINPLACE.match(fmt))
+            ref = fmt % tuple(karg(t, i, "const") for i, t in enumerate(types))
+            for combo in __import__("itertools").product(kinds, repeat=arity):
+                if all(k == "const" for k in combo) and not inplace:
+                    pass
+                e = fmt % tuple(karg(t, i, k) for i, (t, k) in enumerate(zip(types, combo)))
+                root = None
+                if inplace and combo[0] in ("var", "elem", "item"):
+                    tl = types[0].lower()
+                    root = {"var": "K%s0" % tl.upper(), "elem": "KT%s" % tl.upper(), "item": "KR%s" % tl.upper()}[combo[0]]
+                ops = [op_ctx(), op_run(pre), op_dump(), op_run("print %s;" % ref), op_out(), op_dump(),
+                       op_run("print %s;" % e), op_out(), op_dump(),
+                       op_run("for kq in 1 to 2 loop print %s; end loop;" % e), op_out(), op_dump()]
+                yield Case("k%d" % n, ops, {"kind": "kinds", "e": e, "ref": ref, "root": root, "sig": fmt % tuple(types), "combo": "/".join(combo)})
+                n += 1
+    return gen
+
+
+def check_kinds(case, res, vs):
+    m = case.meta
+    st = res["steps"]
+    if st[1].get("r") != "ok":
+        vs.append(Violation("kinds:prelude", "prelude failed: %s" % st[1], case))
+        return vs, False
+    d0, r_ref, o_ref, d1, r1, o1, d2, r2, o2, d3 = st[2:12]
+    o_ref, o1, o2 = unhex(o_ref.get("out", "")), unhex(o1.get("out", "")), unhex(o2.get("out", ""))
+    cls = "%s:%s" % (m["sig"], m["combo"])
+
+    def changed(a, b, allow=None):
+        va, vb = a.get("vars", {}), b.get("vars", {})
+        return [k for k in va if k != "KQ" and k != allow and va[k] != vb.get(k)]
+    ch = changed(d0, d1)
+    if ch:
+        vs.append(Violation("kinds:constant-form-changed-variable:%s" % m["sig"], "print %s changed %s" % (m["ref"], ch), case))
+        return vs, True
+    if r_ref.get("r") != r1.get("r"):
+        vs.append(Violation("kinds:outcome-differs:%s" % cls, "%s -> %s but constant form %s -> %s" % (m["e"], r1, m["ref"], r_ref), case))
+        return vs, True
+    ch = changed(d1, d2, m["root"]) + changed(d2, d3, m["root"])
+    if ch:
+        vs.append(Violation("kinds:variable-changed:%s" % cls, "evaluating %s changed %s: %r -> %r -> %r" % (
+            m["e"], ch, d1["vars"].get(ch[0]), d2["vars"].get(ch[0]), d3["vars"].get(ch[0])), case))
+        return vs, True
+    if r1.get("r") != "ok":
+        return vs, True
+    if o1 != o_ref:
+        vs.append(Violation("kinds:result-differs:%s" % cls, "%s printed %r, constant form %s printed %r" % (m["e"], o1, m["ref"], o_ref), case))
+        return vs, True
+    if r2.get("r") == "ok" and not changed(d1, d3) and o2 != o1 + o1:
+        vs.append(Violation("kinds:reevaluation-differs:%s" % cls, "%s printed %r then %r in an unchanged state" % (m["e"], o1, o2), case))
+    return vs, True
+
+
+# ------------------------------------------------------------------------------------------------
+# (d) storage locations x readers: a location that was just written (plain variable, forall iterator, for control variable,
+#     function parameter, function local, table element, tuple item), then read twice as operand of an operator or
+#     builtin that may reuse temporaries, still holds the written value.
+LOC_VALS = {"I": ("20", "(4 * 5)", "ksrc", 20), "S": ('"id"', '("i" + "d")', "ksrc", b"id"), "D": ("2.5", "(5.0 / 2)", "ksrc", 2.5),
+            "X": ('raw("id")', 'subraw(raw("xid"), 1)', "ksrc", b"id")}
+READERS = {
+    "I": ["%s / 2", "%s * 3", "%s + 1", "- %s", "2 - %s", "max(%s, 1)", "str(%s)", "%s + 0.5", "hex(%s)", "pow(%s, 2)", "mod(%s, 7)", "%s == 20", "chr(%s)",
+          "tab(1, %s)", "tup(%s, 1)", "clamp(%s, 0, 5)", "%s << 1", "abs(%s)", "%s * 1.5"],
+    "S": ['%s + "-1"', '"-" + %s', "upper(%s)", "trim(%s)", 'replace(%s, "i" + "", "o")', "substr(%s, 1)", "lsubstr(%s, 1)", 'strpos(%s, "d")', "strlen(%s)",
+          "raw(%s)", '%s == "id"', "tab(1, %s)", "tup(%s, 1)", "%s.at(0)", "hash(%s)", 'tokenize(%s, "d")', '%s + "a" + "b"'],
+    "D": ["%s / 2", "%s * 3", "%s + 1", "- %s", "round(%s)", "floor(%s)", "str(%s)", "max(%s, 1.0)", "pow(%s, 2)", "%s < 3", "tab(1, %s)", "sqrt(%s)", "abs(%s)"],
+    "X": ["%s.at(0)", "subraw(%s, 1)", "b64enc(%s)", "str(%s)", "%s == raw(\"id\")", "tab(1, %s)", "%s.count()"],
+}
+
+
+def loc_programs(t, src, reader):
+    """[(name, program)]: each program prints the location after two reads; `src` is the written expression"""
+    r = reader % "e"
+    rp = reader % "p"
+    rl = reader % "l"
+    rv = reader % "v"
+    seed = LOC_VALS[t][0]
+    other = {"I": "1", "S": '"x"', "D": "0.5", "X": 'raw("x")'}[t]
+    # a function body cannot see the caller's ksrc: it copies from a local of its own
+    fsrc, fpre = (src, "") if src != "ksrc" else ("lsrc", "lsrc = %s; " % seed)
+    out = [
+        ("var", "v = %s; z1 = %s; z2 = %s; print v;" % (src, rv, rv)),
+        ("var-retyped", "v = null; v = %s; z1 = %s; z2 = %s; print v;" % (src, rv, rv)),
+        ("forall-iter", "w = tab(2, %s); forall e in w loop e = %s; z1 = %s; z2 = %s; end loop; print w.at(0); print w.at(1);" % (other, src, r, r)),
+        ("forall-iter-read-only", "w = tab(2, %s); forall e in w loop z1 = %s; z2 = %s; end loop; print w.at(0); print w.at(1);" % (seed, r, r)),
+        ("forall-iter-desc", "w = tab(2, %s); forall e in w desc loop e = %s; z1 = %s; end loop; print w.at(0); print w.at(1);" % (other, src, r)),
+        ("param", "function g(p) return boolean is begin z1 = %s; z2 = %s; print p; return true; end; zz = g(%s);" % (rp, rp, src)),
+        ("param-assigned", "function g(p) return boolean is begin %sp = %s; z1 = %s; z2 = %s; print p; return true; end; zz = g(%s);" % (fpre, fsrc, rp, rp, other)),
+        ("local", "function g() return boolean is begin %sl = %s; z1 = %s; z2 = %s; print l; return true; end; zz = g();" % (fpre, fsrc, rl, rl)),
+        ("caller-arg", "function g(p) return boolean is begin z1 = %s; p = %s; return true; end; v = %s; zz = g(v); print v;" % (rp, other, src)),
+        ("table-elem", "w = tab(2, %s); w.put(0, %s); z1 = %s; z2 = %s; print w.at(0); print w.at(1);" % (other, src, reader % "w.at(0)", reader % "w.at(0)")),
+        ("tuple-item", "u = tup(%s, 1); u.set@1(%s); z1 = %s; z2 = %s; print u@1;" % (other, src, reader % "u@1", reader % "u@1")),
+        ("returned", "function g() return %s is begin %sl = %s; return l; end; v = g(); z1 = %s; z2 = %s; print v; print g();" % (KTYPE[t], fpre, fsrc, rv, rv)),
+    ]
+    if t == "I":
+        out.append(("for-var", "for e in 20 to 21 loop z1 = %s; z2 = %s; print e; end loop;" % (r, r)))
+    return out
+
+
+LOC_OTHER = {"I": "1", "S": '"x"', "D": "0.5", "X": 'raw("x")'}
+
+
+def locs_gen(tier):
+    def gen():
+        n = 0
+        for t, (c, tmp, var, _) in LOC_VALS.items():
+            for skind, src in (("const", c), ("tmp", tmp), ("var", var)):
+                for reader in READERS[t]:
+                    for name, prog in loc_programs(t, src, reader):
+                        ops = [op_ctx(), op_run("ksrc = %s;" % c), op_run("print %s;" % c), op_out(), op_run("print %s;" % LOC_OTHER[t]), op_out(),
+                               op_run(prog), op_out(), op_run("print ksrc;"), op_out()]
+                        yield Case("l%d" % n, ops, {"kind": "locs", "t": t, "loc": name, "src": skind, "reader": reader, "prog": prog})
+                        n += 1
+    return gen
+
+
+def check_locs(case, res, vs):
+    m = case.meta
+    st = res["steps"]
+    want, other = unhex(st[3].get("out", "")), unhex(st[5].get("out", ""))
+    run, out, out2 = st[6], unhex(st[7].get("out", "")), unhex(st[9].get("out", ""))
+    t = m["t"]
+    cls = "%s:%s:%s" % (t, m["loc"], m["src"])
+    if st[2].get("r") != "ok" or st[4].get("r") != "ok" or not want or not other:
+        vs.append(Violation("locs:reference-failed", "reference prints failed: %s %s" % (st[2], st[4]), case))
+        return vs, False
+    if run.get("r") != "ok":
+        vs.append(Violation("locs:failed:%s" % cls, "%s -> %s" % (m["prog"], run), case))
+        return vs, True
+    if m["loc"] == "for-var":
+        exp = b"20\n21\n"
+    elif m["loc"] in ("forall-iter", "forall-iter-read-only", "forall-iter-desc", "returned"):
+        exp = want + want
+    elif m["loc"] == "table-elem":
+        exp = want + other
+    else:
+        exp = want
+    if out != exp:
+        vs.append(Violation("locs:value-changed:%s" % cls, "%s printed %r, expected %r" % (m["prog"], out, exp), case))
+        return vs, True
+    if out2 != want:
+        vs.append(Violation("locs:source-changed:%s" % cls, "after %s the source variable prints %r, expected %r" % (m["prog"], out2, want), case))
+    return vs, True
+
+
 def check(case, res):
     vs = generic_safety(case, res)
     if res.get("st") != "done":
         return vs, True
     if case.meta["kind"] == "pure":
         return check_pure(case, res, vs)
+    if case.meta["kind"] == "kinds":
+        return check_kinds(case, res, vs)
+    if case.meta["kind"] == "locs":
+        return check_locs(case, res, vs)
     return check_alias(case, res, vs)
 
 
@@ -284,6 +521,8 @@ def run(tier):
     deadline = t0 + (3000 if tier == "thorough" else 420)
     total = Result()
     total.merge(explore("%s-%s-purity" % (PROP, tier), purity_gen(tier), check, chunk=300, deadline=deadline))
+    total.merge(explore("%s-%s-kinds" % (PROP, tier), kinds_gen(tier), check, chunk=300, deadline=deadline))
+    total.merge(explore("%s-%s-locs" % (PROP, tier), locs_gen(tier), check, chunk=300, deadline=deadline))
     depth = 4 if tier == "thorough" else 3
     frontier = [(fam, []) for fam in INIT]
     seen = set()
